@@ -1,5 +1,5 @@
 (* C10 — Size, Cost and Stats agree with what the cache holds and did. CacheProofs.v. Only `exact` + Print Assumptions. *)
-Require Import KV.Base KV.Gen.Consts KV.ConfigModel KV.CacheModel KV.ClassicProofs KV.SieveProofs KV.CacheProofs KV.TtlProofs KV.MutexAtomicity.
+Require Import KV.Base KV.Gen.Consts KV.ConfigModel KV.CacheModel KV.ClassicProofs KV.SieveProofs KV.CacheProofs KV.TtlProofs KV.MutexAtomicity KV.StripedCounter.
 Open Scope Z_scope.
 
 (* in every state: total size = number of resident items = table sizes; total cost = sum of item costs when tracked, else size; len(Keys) <= size *)
@@ -144,8 +144,9 @@ Proof. exact TtlProofs.c05_cleanup. Qed.
 
 (* lock-protected updates of the structures are sequentially consistent in lock order *)
 Theorem c10_locked_counters_sequential :
-  forall (S R : Type) (s0 : S) (scripts : list (list (op S R))) (st : state S R),
-         reachable s0 scripts st ->
+  forall (S R : Type) (s0 : S) (scripts : list (list (op S R)))
+           (st : MutexAtomicity.state S R),
+         MutexAtomicity.reachable s0 scripts st ->
          ((forall t : nat, ~ in_write st t) ->
           sh st = seq_state s0 (map snd (g_acq st)) /\ g_ret st = seq_rets s0 (g_acq st)) /\
          (forall (t : nat) (c : call S R) (rem : list (mstep S R)) (r : R),
@@ -156,6 +157,43 @@ Theorem c10_locked_counters_sequential :
             (sh st, r) = run_steps done (seq_state s0 (map snd acq'), c_init c) /\
             g_ret st = seq_rets s0 acq').
 Proof. exact MutexAtomicity.atomicity. Qed.
+
+(* striped atomic counters: in every reachable state the stripes sum to the number of recordHit calls made, for any number of goroutines and any sharing of stripes *)
+Theorem c10_striped_sum_is_count :
+  forall (n : nat) (s : state), reachable n s -> sumf (stripes s) n = done s.
+Proof. exact StripedCounter.sum_is_count. Qed.
+
+(* an aggregate running concurrently returns a value between the count when it started and the count when it returned *)
+Theorem c10_striped_aggregate_bounds :
+  forall (n : nat) (s : state) (a : nat) (c0 r : Z),
+         reachable n s -> nth_error (threads s) a = Some (Agg c0 n r) -> c0 <= r <= done s.
+Proof. exact StripedCounter.aggregate_bounds. Qed.
+
+(* with no increment between its start and its return (a quiescent moment) aggregate is exact *)
+Theorem c10_striped_aggregate_quiescent :
+  forall (n : nat) (s0 s' : state) (a : nat) (c0 r : Z),
+         reachable n s0 ->
+         nth_error (threads s0) a = Some AggNew ->
+         star (quiet_step n)
+           {|
+             stripes := stripes s0;
+             done := done s0;
+             threads := set_nth (threads s0) a (Agg (done s0) 0 0)
+           |} s' -> nth_error (threads s') a = Some (Agg c0 n r) -> c0 = done s0 /\ r = done s'.
+Proof. exact StripedCounter.aggregate_quiescent_trace. Qed.
+
+(* the non-atomic Load/Store variant loses updates when two goroutines share a stripe (seeded change C10d-m2) *)
+Theorem c10_load_store_variant_loses_updates :
+  option_map (observe 1) (exec_ls 1 (init lu_threads) [0%nat; 1%nat; 0%nat; 1%nat]) =
+         Some ([1], 2, [Inc []; Inc []]).
+Proof. exact StripedCounter.load_store_loses_updates. Qed.
+
+(* ...and is exact when no stripe is shared, which is why it survives with at least as many stripes as running Ps *)
+Theorem c10_load_store_exact_without_sharing :
+  forall (n : nat) (ths : list thread) (s : state),
+         wf_threads n ths ->
+         no_sharing ths -> reachable_ls_from n ths s -> sumf (stripes s) n = done s.
+Proof. exact StripedCounter.ls_exact_without_sharing. Qed.
 
 (* non-vacuity: counters of the 24-operation LRU run *)
 Theorem c10_example :
@@ -180,4 +218,9 @@ Print Assumptions c10_invariant_all_histories.
 Print Assumptions c10_sieve_counter_is_capacity_drops.
 Print Assumptions c10_cleanup_counts.
 Print Assumptions c10_locked_counters_sequential.
+Print Assumptions c10_striped_sum_is_count.
+Print Assumptions c10_striped_aggregate_bounds.
+Print Assumptions c10_striped_aggregate_quiescent.
+Print Assumptions c10_load_store_variant_loses_updates.
+Print Assumptions c10_load_store_exact_without_sharing.
 Print Assumptions c10_example.
